@@ -35,7 +35,7 @@ theorem contiguous_numbers (jid pass : Option Bytes) (cert : Bool) (flags : Nat)
 
 theorem contiguous_while_resumable (jid pass : Option Bytes) (cert : Bool) (flags : Nat) (ops : List Op) :
     let c := exec (fresh jid pass cert flags) ops
-    (c.sm.id.isSome = true ∨ c.sm.previd.isSome = true) → Contig c.sm :=
+    (c.sm.id.isSome = true ∨ (c.sm.previd.isSome = true ∧ c.sm.boundJid.isSome = true)) → Contig c.sm :=
   Lemmas.ConnC04.contiguous_while_resumable jid pass cert flags ops
 
 theorem retained_were_written (jid pass : Option Bytes) (cert : Bool) (flags : Nat) (ops : List Op) :
@@ -43,13 +43,14 @@ theorem retained_were_written (jid pass : Option Bytes) (cert : Bool) (flags : N
       ∃ r ∈ (exec (fresh jid pass cert flags) ops).tx, r.smNum = some x.1 ∧ r.item = x.2.item :=
   Lemmas.ConnC04.retained_were_written jid pass cert flags ops
 
-theorem retained_only_released_by_h (c : Conn) (op : Op)
-    (x : UInt32 × QElem) (hx : x ∈ c.sm.queue) (hop : match op with | .release => False | _ => True) :
+theorem retained_only_released_by_h (jid pass : Option Bytes) (cert : Bool) (flags : Nat) (ops : List Op)
+    (op : Op) (x : UInt32 × QElem) :
+    let c := exec (fresh jid pass cert flags) ops
+    x ∈ c.sm.queue → (match op with | .release => False | _ => True) →
     x ∈ (step c op).sm.queue ∨
     (∃ hv, carriesH op hv ∧ x.1.toNat < hv) ∨
-    (∃ e ∈ (step c op).queue, e.item = x.2.item ∧ e.owner = x.2.owner ∧ e.snap = x.2.snap) ∨
-    (∃ r ∈ ((step c op).tx.drop c.tx.length), r.item = x.2.item ∧ r.owner = x.2.owner) :=
-  Lemmas.ConnC04.retained_only_released_by_h c op x hx hop
+    (∃ e ∈ (step c op).queue, e.item = x.2.item ∧ e.owner = x.2.owner ∧ e.snap = x.2.snap) :=
+  Lemmas.ConnC04.retained_only_released_by_h jid pass cert flags ops op x
 
 theorem ack_releases_exactly (c : Conn) (st : XTree) (v : Nat)
     (hns : st.ns? = some Gen.nsSm) (hname : st.name? = some (b "a"))
@@ -64,12 +65,13 @@ theorem resumed_retransmits_exactly (c : Conn) (st : XTree) (ours : Bytes) (v : 
     (hname : st.name? = some (b "resumed")) (hp : c.sm.previd = some ours)
     (hpv : st.attr (b "previd") = some ours) (hh : getH st = some v)
     (hstate : c.state = .connected) (hc : Contig c.sm) (hw : NoWrap c.sm)
-    (hhonest : c.sm.sentNr.toNat - c.sm.queue.length ≤ v ∧ v ≤ c.sm.sentNr.toNat) :
+    (hhonest : c.sm.sentNr.toNat - c.sm.queue.length ≤ v ∧ v ≤ c.sm.sentNr.toNat)
+    (hq : ∀ e ∈ c.sm.queue, e.2.item ≠ .req) :
     let c' := handleSm c st
     payload c'.queue = payload c.queue ++ ((c.sm.queue.filter (fun e => v ≤ e.1.toNat)).map (·.2.item)) ∧
     c'.sm.queue = [] ∧ c'.sm.sentNr = UInt32.ofNat v ∧ c'.sm.enabled = true ∧
     (∃ g, c'.evs = c.evs ++ [(g, Ev.connect)]) :=
-  Lemmas.ConnC04.resumed_retransmits_exactly c st ours v hname hp hpv hh hstate hc hw hhonest
+  Lemmas.ConnC04.resumed_retransmits_exactly c st ours v hname hp hpv hh hstate hc hw hhonest hq
 
 theorem failed_keeps_unhandled (c : Conn) (st cause : XTree)
     (hname : st.name? = some (b "failed")) (hcause : st.childByNs Gen.nsStanzasIetf = some cause)
@@ -79,10 +81,11 @@ theorem failed_keeps_unhandled (c : Conn) (st cause : XTree)
 
 theorem enabled_resends_all (c : Conn) (st : XTree)
     (hname : st.name? = some (b "enabled")) (hen : c.sm.enabled = true) (hstate : c.state = .connected)
-    (hid : (st.attr (b "resume")).isSome = true → (st.attr (b "id")).isSome = true) :
+    (hid : (st.attr (b "resume")).isSome = true → (st.attr (b "id")).isSome = true)
+    (hq : ∀ e ∈ c.sm.queue, e.2.item ≠ .req) :
     let c' := handleSm c st
     payload c'.queue = payload c.queue ++ c.sm.queue.map (·.2.item) ∧ c'.sm.queue = [] ∧
     c'.sm.sentNr = c.sm.sentNr :=
-  Lemmas.ConnC04.enabled_resends_all c st hname hen hstate hid
+  Lemmas.ConnC04.enabled_resends_all c st hname hen hstate hid hq
 
 end Strophe.C04
